@@ -546,7 +546,7 @@ def main():
     rep = common.Report(PID, "model_checking")
     rep.bounds = dict(b)
     rep.rule = ("one case = one solver query: (O1/O2: string length L x boundary position p x inserted length k), (O3: style x L x positions), "
-                "(O4: edit x sentence length x position), or one skeleton x layout variants (O6)")
+                "(O4: edit x sentence length x position), one skeleton x layout variants (O6), or one lexer rule (O7: no blank inside a non-layout token)")
     rep.assumptions = [
         "strings are over 21-bit code points; lone QUOTE tokens (never part of a valid script) are excluded; the token ending at the insertion point is not a COMMENT",
         "O4 treats precedence predicates as epsilon (language level)",
